@@ -122,6 +122,59 @@ theorem readItem_cut (s : PIS) (i : RItem) (hv : ∀ n, i ≠ .var n) (hp : s.pe
     have := readBytes_trunc s bs.length (by simpa [RItem.enc] using hp)
     unfold readItem; cases h : s.readBytes bs.length <;> simp_all [POut.isError]
 
+/-- any item cut strictly inside its encoding fails, varints included -/
+theorem readItem_cut' (s : PIS) (hc : 0 < s.cap) (hinv : s.Inv) (i : RItem) (more : Bytes)
+    (hp : s.pending ++ more = i.enc) (hm : more ≠ []) : (s.readItem i).isError = true := by
+  have hlen : s.pending.length < i.enc.length := by
+    have := congrArg List.length hp
+    have hm' : 0 < more.length := List.length_pos_iff.mpr hm
+    simp at this; omega
+  cases i with
+  | var n =>
+    have := readVar_trunc s hc hinv n more (by simpa [RItem.enc] using hp) hm
+    unfold readItem; cases h : s.readVar <;> simp_all [POut.isError]
+  | byte b =>
+    have := readItem_cut s (.byte b) (by intro n h; cases h) hlen
+    cases h : s.readItem (.byte b) <;> simp_all [POut.isError]
+  | fixed bs =>
+    have := readItem_cut s (.fixed bs) (by intro n h; cases h) hlen
+    cases h : s.readItem (.fixed bs) <;> simp_all [POut.isError]
+  | bytes bs =>
+    have := readItem_cut s (.bytes bs) (by intro n h; cases h) hlen
+    cases h : s.readItem (.bytes bs) <;> simp_all [POut.isError]
+
+/-- **A truncated sequence is never read successfully**: whatever strict prefix of the written data the stream
+    holds — cut between items or inside one —, the reader that issues the matching reads ends in an error. -/
+theorem readItems_cut (items : List RItem) (s : PIS) (hc : 0 < s.cap) (hinv : s.Inv)
+    (hf : ∀ i ∈ items, i.fits s.cap) (more : Bytes) (hm : more ≠ [])
+    (hp : s.pending ++ more = encItems items) : (s.readItems items).isError = true := by
+  induction items generalizing s with
+  | nil =>
+    have : more = [] := by
+      have := congrArg List.length hp
+      simp [encItems] at this
+      exact this.2
+    exact absurd this hm
+  | cons i r ih =>
+    simp only [encItems] at hp
+    rcases List.append_eq_append_iff.mp hp with ⟨a, h1, h2⟩ | ⟨c, h1, h2⟩
+    · -- the stream ends inside (or exactly at the end of) item `i`
+      by_cases ha : a = []
+      · subst ha
+        obtain ⟨s1, e1, hp1, hinv1, hc1⟩ := readItem_ok s hc hinv i (hf i (by simp)) [] (by simpa using h1.symm)
+        have := ih s1 (by omega) hinv1 (fun j hj => by rw [hc1]; exact hf j (by simp [hj]))
+          (by rw [hp1]; simpa using h2)
+        unfold readItems; rw [e1]
+        cases h : s1.readItems r <;> simp_all [POut.isError]
+      · have := readItem_cut' s hc hinv i a h1.symm ha
+        unfold readItems
+        cases h : s.readItem i <;> simp_all [POut.isError]
+    · obtain ⟨s1, e1, hp1, hinv1, hc1⟩ := readItem_ok s hc hinv i (hf i (by simp)) c h1
+      have := ih s1 (by omega) hinv1 (fun j hj => by rw [hc1]; exact hf j (by simp [hj]))
+        (by rw [hp1]; exact h2.symm)
+      unfold readItems; rw [e1]
+      cases h : s1.readItems r <;> simp_all [POut.isError]
+
 end PIS
 
 end Yardl
